@@ -134,6 +134,7 @@ class Run:
         self.errors = []
         self.loads = {}             # thread -> number of storage loads (to tell hit from miss)
         self.inst_ids = {}          # id(instance) -> small int
+        self.pool_bad = []
         self.trace = []             # model-level events (c02_trace)
         self.tracer = None
 
@@ -448,6 +449,12 @@ def run_case(case, tmp, with_trace=False, schedule=None):
         s.hooks = list(hooks)
         if rec is not None:
             sched.vfs_hook(rec)
+            fp = st._files
+
+            def pool_hook(t, kind, label):      # [I] FilePool: no reader file out while `writing`
+                if fp.writing and fp._out and not run.pool_bad:
+                    run.pool_bad.append('%s %s %s' % (t, kind, label))
+            s.hooks.append(pool_hook)
         stamps = [0]
         for name in sorted(case['progs']):
             if name == 'pk':
@@ -472,6 +479,7 @@ def run_case(case, tmp, with_trace=False, schedule=None):
     obs['epochs'] = [e for e in run.epochs if e['thread'] != 'setup']
     obs['commits'] = run.commits
     obs['errors'] = run.errors
+    obs['pool_bad'] = run.pool_bad
     obs['trace'] = run.tracer.lines() if run.tracer else None
     obs['trace_expect'] = run.tracer.expect if run.tracer else None
     obs['setup_tid'] = setup_tid
@@ -487,6 +495,9 @@ def oracle(obs):
         return [('C02:deadlock', 'no runnable thread (schedule deadlocked)')]
     for t, e in sorted(obs['thread_errors'].items()):
         out.append(('C02:thread-error', 'thread %s died: %s' % (t, e)))
+    if obs.get('pool_bad'):
+        out.append(('C02:pool-mutex', 'FilePool handed a reader file out while a finisher was writing (%s)'
+                    % obs['pool_bad'][0]))
     revs = obs['revs']
     commits = sorted(obs['commits'], key=lambda c: c['ret'])
     for ep in obs['epochs']:
